@@ -216,8 +216,12 @@ func (r *Reader) getUncompressedObject(objNum int, entry *core.XRefEntry) (core.
 		return nil, fmt.Errorf("failed to seek to object %d: %w", objNum, err)
 	}
 
-	// Parse the indirect object
-	parser := core.NewParser(r.file)
+	// Parse the indirect object from its own view of the file. Resolving an
+	// indirect /Length re-enters GetObject while this parser is suspended in
+	// the middle of a stream; with the shared file offset the nested lookup
+	// moved the read position and the rest of the stream was read from the
+	// wrong place.
+	parser := core.NewParser(io.NewSectionReader(r.file, entry.Offset, r.fileSize-entry.Offset))
 	parser.SetReferenceResolver(r)
 	indObj, err := parser.ParseIndirectObject()
 	if err != nil {
